@@ -654,7 +654,7 @@ func repoFrames(s string) string {
 		out = append(out, lines[0])
 	}
 	for i, l := range lines {
-		if strings.HasPrefix(strings.TrimSpace(l), "/repo/") && i > 0 {
+		if strings.HasPrefix(strings.TrimSpace(l), repoPrefix) && i > 0 {
 			fn := strings.TrimSpace(lines[i-1])
 			if p := strings.LastIndex(fn, "("); p > 0 {
 				fn = fn[:p]
